@@ -592,7 +592,7 @@ theorem rot120_extents (p : Pt ℝ) :
 theorem usable_cs3_spans_usable_width (ρ : String → ℝ) (p : Pt ℝ) :
     keepPt (callEnv ρ three_usable_cs) three_usable_cs_helper.ops p =
       if p.y ≤ ρ U / 2 ∧ (rot120 p).y ≤ ρ U / 2 ∧ (rot120 (rot120 p)).y ≤ ρ U / 2 then some p else none := by
-  have hr : ∀ q : Pt ℝ, rotPt (120 : ℝ) q = rot120 q := fun q => rotPt_120 q
+  have hr : ∀ q : Pt ℝ, rotPt (120 : ℝ) q = rot120 q := fun q => rotPt_120_deg q
   simp only [three_usable_cs, three_usable_cs_helper, keepPt, callEnv, extend, lookup, lowerOk, upperOk, eval, U,
     List.map, PyNum.nat_real, Nat.cast_ofNat, hr, rot120_cube, Bool.true_and, le_real, decide_eq_true_eq, if_true]
   by_cases h1 : p.y ≤ ρ "usable_width" / 2 <;> by_cases h2 : (rot120 p).y ≤ ρ "usable_width" / 2 <;>
